@@ -8,6 +8,8 @@ CONSTANTS
  ExtSetUp = FALSE
  KF_OpenAfterClose = FALSE
  KF_GuardOnVisibleOnly = FALSE
- KF_SurvivorsOnly = FALSE
+KF_SurvivorsOnly = FALSE
+KF_RetryUnguarded = FALSE
+MaxRetry = 2
 PROPERTIES C08_Opens
 CHECK_DEADLOCK FALSE
